@@ -123,7 +123,12 @@ class Grid:
         """the property's premise: increasing, equally spaced up to rounding, and the documented band of the
         widest case stays below h/8 (the grid resolves its own step for this dtype)"""
         if self.n == 1:
-            return True
+            # a single edge: the code takes the arbitrary step h = 1, so the same resolution premise applies with
+            # h = 1 (a float32 edge of 1.5e7 has |a0|*eps32 = 1.8 > 1: the grid does not resolve the code's own step;
+            # bin1d_vec then rejects the edge value itself — observed, outside the premise like [2**52, 2**52+1])
+            a0 = abs(float(self.a0F))
+            ptol = abs(tol) if tol else a0 * float(EPS[pd])
+            return 3 * a0 * float(EPS[self.bd]) + ptol < 1.0 / 8
         if self.hF <= 0:
             return False
         e = self.e64
